@@ -28,6 +28,7 @@ type Mock struct {
 	cond    *sync.Cond
 	pending []*Pending
 	seq     int
+	Bodies  []string // byte-level path: "wirebody <method> <what was encoded>\t<hex>" lines
 	// Auto answers a call without parking it when it returns true (used for close and for free-running phases).
 	Auto func(c kafka.VerifCoordCall) (kafka.VerifCoordReply, bool)
 }
@@ -100,6 +101,20 @@ func Offsets(m map[string]map[int]int64) string {
 }
 
 func (m *Mock) Handle(c kafka.VerifCoordCall) kafka.VerifCoordReply {
+	if c.Method == "wirebody" { // byte-level path: the response body the peer is about to write
+		m.mu.Lock()
+		d := c.Desc
+		if d == "" {
+			d = "-"
+		}
+		m.Bodies = append(m.Bodies, fmt.Sprintf("wirebody %s %s\t%x", c.Of, d, c.Body))
+		m.mu.Unlock()
+		return kafka.VerifCoordReply{}
+	}
+	if c.Method == "outcome" { // byte-level path: what the library's real Conn call concluded
+		kafka.VerifGroupEmit("M.Wire", c.Conn, c.Of, ClassOfHook(c.Outcome))
+		return kafka.VerifCoordReply{}
+	}
 	if c.Method == "close" {
 		kafka.VerifGroupEmit("M.Close", c.Conn)
 		return kafka.VerifCoordReply{}
@@ -110,6 +125,11 @@ func (m *Mock) Handle(c kafka.VerifCoordCall) kafka.VerifCoordReply {
 	}
 	kafka.VerifGroupEmit("M.Call", c.Conn, c.Method, Mem(c.MemberID), c.GenerationID, topics, Offsets(c.Offsets))
 	var r kafka.VerifCoordReply
+	if c.Dead { // byte-level path, connection already dropped: the call fails locally, nothing to decide
+		r = kafka.VerifCoordReply{Err: errors.New("connection is dead")}
+		m.emitRet(c, r)
+		return r
+	}
 	if m.Auto != nil {
 		if a, ok := m.Auto(c); ok {
 			r = a
@@ -164,6 +184,15 @@ func Committed(cs []kafka.VerifGroupOffset) string {
 		return "-"
 	}
 	return strings.Join(parts, ",")
+}
+
+// TakeBodies returns and clears the recorded response bodies.
+func (m *Mock) TakeBodies() []string {
+	m.mu.Lock()
+	defer m.mu.Unlock()
+	b := m.Bodies
+	m.Bodies = nil
+	return b
 }
 
 // Snapshot returns the parked calls (oldest first).
